@@ -353,12 +353,6 @@ def select_entry(mode, clsid: bytes, payload: bytes, msgids):
     """Return (table_mode, table_key) for a frame of class/ID `clsid` in `mode`, or None if the
     message has no multi-variant rule (then the table key is the UBX_MSGIDS name)."""
     p = payload
-    if clsid[0:1] == b"\x13" and clsid != b"\x13\x80":
-        # MGA: sub-type in first payload byte; GET only for FLASH(21) / ACK(60)
-        if mode == SET and clsid[1] in (0x00, 0x02, 0x03, 0x05, 0x06, 0x21, 0x40) or mode == GET and clsid[1] in (0x21, 0x60):
-            name = msgids.get(clsid + p[0:1])
-            return (SET if mode == SET else GET, name) if name else ("unknown", None)
-        return None
     key = (mode, clsid)
     if key == (POLL, b"\x06\x31"):
         return (POLL, "CFG-TP5-TPX" if len(p) == 1 else "CFG-TP5")
